@@ -79,8 +79,14 @@ def assign_uids(prog):
     return prog
 
 
+DEFAULT_MODS = [{"id": "A", "inc": []}, {"id": "B", "inc": ["A"]}]
+
+
 class ProgramText:
-    """One abstract program -> two IDL files (module A; module B including A) + an extras file.
+    """One abstract program -> IDL files + an extras file.  The modules, their order, the file each is written in and the
+    include lines of that file (in order) are the program's `mods` (spec/IdlGrammar/IdlIncludes.tla; a file is named after
+    its first module); a program without `mods` (IdlPrograms.tla, IdlSignatures.tla) has module A and module B including A,
+    one file each.  The file of the last module is the root.
     Lexical decisions of an element depend only on (seed, program number, element uid), so that an element
     is written the same way when other elements are removed."""
 
@@ -88,8 +94,16 @@ class ProgramText:
         assign_uids(prog)
         self.prog, self.k, self.seed = prog, k, seed
         rng = self.rng = random.Random("%s:%s:layout" % (seed, k))
-        self.modname = {"A": rng.choice(["Ga%d", "ga%d", "Mod_a%d"]) % k, "B": rng.choice(["Gb%d", "gb%d", "Mod_b%d"]) % k}
-        self.fname = {"A": "P%da.tars" % k, "B": "P%db.tars" % k}
+        mods = prog.get("mods") or DEFAULT_MODS
+        self.mods = [m["id"] for m in mods]
+        self.inc = {m["id"]: list(m["inc"]) for m in mods}
+        self.root = self.mods[-1]
+        self.fileof = {m["id"]: m.get("file") or m["id"] for m in mods}
+        self.files = [m for m in self.mods if self.fileof[m] == m]
+        self.modname, self.fname = {}, {}
+        for m in self.mods:
+            self.modname[m] = rng.choice(["G%s%d", "g%s%d", "Mod_%s%d"]) % (m.lower(), k)
+            self.fname[m] = "P%d%s.tars" % (k, self.fileof[m].lower())
         self.crlf = rng.random() < 0.1
         self.ind = rng.choice(["    ", "\t", "  "])
         self.brace = rng.choice([" {", "\n{"])
@@ -125,6 +139,7 @@ class ProgramText:
         mod = seq[i - 1]["mod"]
         if mod != frm:
             marks.add("x" + kind)
+            self.incmark(frm, mod, marks)
             return "%s::%s" % (self.modname[mod], name)
         if rng.random() < 0.15:
             marks.add("q" + kind)
@@ -133,6 +148,14 @@ class ProgramText:
         if kind == "enum" and name[0].islower():
             marks.add("lcenum")
         return name
+
+    def incmark(self, frm, mod, marks):
+        """which include line of file frm brings module mod in (only told apart when the file has several)"""
+        inc = self.inc.get(frm, [])
+        if len(inc) > 1 and mod in inc:
+            marks.add("from-first-of-several-includes" if inc.index(mod) == 0 else "from-later-include")
+        elif self.fileof.get(mod) == self.fileof.get(frm):
+            marks.add("from-earlier-module-of-the-file")
 
     def type_text(self, tree, frm, rng, marks):
         k = tree["k"]
@@ -173,6 +196,8 @@ class ProgramText:
         marks.add("default-member")
         if self.enum_names[e - 1][0].islower():
             marks.add("lcenum")
+        if emod != frm:
+            self.incmark(frm, emod, marks)
         if emod != frm or rng.random() < 0.3:
             return " = %s::%s" % (self.modname[emod], nm)
         return " = " + nm
@@ -181,16 +206,17 @@ class ProgramText:
         top = tree["k"] if tree else "void"
         top = {"vec": "vector", "map": "map"}.get(top, top)
         refs = sorted(x for x in marks if x in ("enum", "struct", "xenum", "xstruct", "qenum", "qstruct"))
+        via = sorted(x for x in marks if x.startswith("from-"))[-1:]
         if m is not None and m["arr"]:
             # one name per array member: the reference most likely to matter (other module > qualified > plain)
             first = [x for x in ("xstruct", "xenum", "qstruct", "qenum", "enum", "struct") if x in refs]
-            return "array:of=" + (first[0] if first else top)
+            return ":".join(["array:of=" + (first[0] if first else top)] + via)
         parts = [head, top]
         if tree and tree["k"] in ("vec", "map") and refs:
             parts.append("of=" + "+".join(refs))
         elif refs and refs[0][0] in "xq":
             parts[-1] = refs[0]
-        if "lcenum" in marks and "default-member" in marks:
+        if "lcenum" in marks and "default-member" in marks and not via:
             return "enum-default-by-member-name:enum-name-starts-lowercase"
         for x in ("lcenum", "default-member", "default-number"):
             if x in marks:
@@ -199,13 +225,13 @@ class ProgramText:
             parts.append("default")
         if m is not None and m["def"] == "none" and not m["arr"]:
             parts.append("nodefault")
-        return ":".join(parts)
+        return ":".join(parts + via)
 
     def module_text(self, mod):
         P, rng, ind, brace = self.prog, random.Random("%s:%s:%s" % (self.seed, self.k, mod)), self.ind, self.brace
         out = []
-        if mod == "B":
-            out.append('#include "%s"' % self.fname["A"])
+        for j in (self.inc[mod] if self.fileof[mod] == mod else []):
+            out.append('#include "%s"' % self.fname[j])
         if rng.random() < 0.3:
             out.append("// generated test program %d, module %s" % (self.k, mod))
         out.append("module %s%s" % (self.modname[mod], brace))
@@ -284,6 +310,10 @@ class ProgramText:
         out.append("};")
         text = "\n".join(out) + "\n"
         return text.replace("\n", "\r\n") if self.crlf else text
+
+    def file_text(self, f):
+        """the file named after module f: its include lines and every module written in it"""
+        return "".join(self.module_text(m) for m in self.mods if self.fileof[m] == f)
 
     def extras_text(self):
         """constructs the independent schema extractor cannot read (by-name enum values): compiled only"""
